@@ -300,7 +300,9 @@ def run_forward(spec, **kw):
         other = B.build(pre_edit_model(spec["model"], ops) if ops else spec["model"], spec.get("ranks"))
         scen.simulate(other.project, spec["cfg"], want_snap=False)
     tr.first_out = out1
+    tr.pre_reload_snap = None
     if out1.ok and hist.get("reload"):
+        tr.pre_reload_snap = D.snapshot(D.index(p))  # what the first call left, before it went through the file
         ow = D.call(lambda: p.write_simple_json("mem:inplace.json"))
         if ow.ok:
             orr = D.call(lambda: p.read_simple_json("mem:inplace.json"))
